@@ -18,12 +18,22 @@ where
 
     if is_gzip {
         let reader = BufReader::new(GzDecoder::new(file));
-        Ok(reader.lines().count())
+        count_lines(reader)
     } else {
         let reader = BufReader::new(file);
-        let count = reader.lines().count();
-        Ok(count)
+        count_lines(reader)
     }
+}
+
+/// counts the lines of a reader, stopping at the first read error instead of
+/// counting it as a line (an iterator over a failing reader may never end).
+fn count_lines<R: BufRead>(reader: R) -> std::io::Result<usize> {
+    let mut count = 0;
+    for line in reader.lines() {
+        line?;
+        count += 1;
+    }
+    Ok(count)
 }
 
 /// attempts to read a gzip header from the file. if it is found,
